@@ -62,10 +62,21 @@ def run(prop, tier, seed):
         mu1, mu2 = rng.choice([0, rng.uniform(-3, 3) * s1]), rng.choice([0, rng.uniform(-3, 3) * s2])
         d = rng.choice([0, rng.uniform(-8, 8) * max(s1, s2)])
         case(s1, s2, mu1, mu2, d, shared=rng.random() < 0.1 and s1 == s2 and mu1 == mu2)
+    # far-away centres: large offsets whose difference the delay (partly) compensates, and large
+    # uncompensated delays -- what decides the overlap is the distance of the centres, delay + mu2 - mu1
+    for _ in range(300 if thorough else 50):
+        s1 = 10 ** rng.uniform(-15, 0)
+        s2 = s1 * rng.choice([1, 1, rng.uniform(0.5, 2)])
+        w = max(s1, s2)
+        mu1 = rng.choice([0.0, rng.uniform(-40, 40) * w])
+        mu2 = rng.uniform(-40, 40) * w
+        dist = rng.choice([0.0, rng.uniform(-3, 3) * w, rng.uniform(-15, 15) * w])
+        d = (mu1 - mu2) + dist if rng.random() < 0.8 else rng.uniform(-60, 60) * w
+        case(s1, s2, mu1, mu2, d)
     case(42.45e-15, 42.45e-15, 0.0, 0.0, 0.0)
     L.close()
     cov = {"evaluations": n, "distinct_nontrivial": len(buckets),
-           "rule": "grid sigma = 1e-15..1 s x delays 0..20 sigma (both signs, both argument orders) plus a seeded random stream with unequal widths and centre offsets; shared and self profiles included; distinct = (decade of sigma, equal widths?, zero delay?, offsets?, shared?, self?)",
+           "rule": "grid sigma = 1e-15..1 s x delays 0..20 sigma (both signs, both argument orders) plus seeded random streams with unequal widths and centre offsets (small, and up to 40 sigma with compensating / non-compensating delays up to 60 sigma); shared and self profiles included; distinct = (decade of sigma, equal widths?, zero delay?, offsets?, shared?, self?)",
            "samples": samples, "unequal_width_closed_form": "tested only (the theorem covers equal widths)"}
     return CL.finish(prop, tier, seed, pr, viol, list(pr.problems), cov, t0,
                      ["scipy.integrate.quad is trusted to integrate a smooth integrand over the finite window to 1e-7",
